@@ -206,6 +206,9 @@ type Replay struct {
 	SiteNames []string  `json:"site_names,omitempty"`
 	History   *History  `json:"history,omitempty"`
 	Minimised bool      `json:"minimised"`
+	// Native: the violation did not recur on every execution of this very history when it
+	// was found (source outside the seams); replay repeats the history up to 16 times.
+	Native bool `json:"native_nondeterminism,omitempty"`
 	ShrinkLog []string  `json:"shrink_log,omitempty"`
 	Extra     any       `json:"extra,omitempty"`
 }
